@@ -458,10 +458,9 @@ def check_class(ck, tab, cache, origin, rng, demand_equal, collect):
     Returns the Coq case term and a meta dict (for reports)."""
     cls = tab["cls"]
     fq = "%s.%s" % (cls.__module__, cls.__qualname__)
-    short = cls.__qualname__
-    key_cls = short if origin == "shipped" else "generated"
     dcode, methods, consts, signals, iface = describe(cls)
-    meta = {"class": fq, "origin": origin, "desc_code": dcode, "methods": sorted(methods)}
+    meta = {"class": fq, "origin": origin, "desc_code": dcode, "methods": sorted(methods),
+            "demand_equal": bool(demand_equal)}
 
     def rep(extra):
         r = dict(meta)
@@ -940,7 +939,7 @@ def run(ck):
                   {"broken": "translator t_c05_classes", "class": c.__qualname__, "error": e}, found_input=False)
     os.makedirs(os.path.dirname(GEN), exist_ok=True)
     obligations = T.emit(GEN, tabs, cache, "shipped", True, header="shipped QMI_RpcObject classes")
-    ngen = 200 if ck.tier == "quick" else 3000
+    ngen = 200 if ck.tier == "quick" else 4000
     gseed = ck.rng.randrange(1 << 30)
     scratch = ck.scratch_dir()
     gmod, gclasses, gerrs = load_generated(scratch, gseed, ngen)
@@ -967,7 +966,9 @@ def run(ck):
     failing = [t["ident"] for t, ok in zip(tabs, shipped_ok) if not ok]
     ck.add_generated_obligations(len(obligations), sum(shipped_ok), failing)
     ck.coverage["class_ok_obligations"] = {"classes": len(obligations), "discharged": sum(shipped_ok),
-                                           "failing": failing}
+                                           "failing": failing,
+                                           "class_list": ["%s.%s" % (t["cls"].__module__, t["cls"].__qualname__)
+                                                          for t in tabs]}
     if not os.path.exists(GEN2 + "o"):
         raise RuntimeError("generated class tables do not compile:\n" + ck.proof_log[-2000:])
     gok = parse_bools(ck.model_eval(CORR, "map class_ok generated"))
@@ -1020,7 +1021,17 @@ def run(ck):
                    "accepted": m.get("accepted")}, found_input=False)
     ck.coverage["python_s"] = round(time.time() - t_start, 1)
     return ck.finish("one case per (class, name in request); non-trivial = the name is accepted or is a member of "
-                     "the class (as opposed to junk that resolves nowhere); distinct by (class, name)")
+                     "the class (as opposed to junk that resolves nowhere); distinct by (class, name)",
+                     "Theorems are about Model.v for every class table; class_ok is discharged by vm_compute for each "
+                     "of the %d shipped QMI_RpcObject classes (tables regenerated from the live classes this run). "
+                     "%d shipped classes were instantiated and probed through the real _check_and_get_method / "
+                     "_handle_method_rpc_request with every name of dir(obj), the metaclass, the descriptor and junk; "
+                     "%d are covered statically only (table + class_ok + real descriptor + real proxy) because their "
+                     "constructor needs a vendor library or platform. %d generated classes (%d inside class_ok) went "
+                     "through the same translator and checks. Known findings: hasattr()/getattr() in "
+                     "_check_and_get_method evaluate property getters of the target object (see known_findings.d/"
+                     "C05.json, fixes/C05_property_getter_runs_before_marker_check.diff)."
+                     % (len(tabs), n_ship_inst, len(tabs) - n_ship_inst, len(gtabs), sum(gok)))
 
 
 def _kind_totals(tabs, cache):
@@ -1044,7 +1055,7 @@ def replay(rep):
         os.makedirs(scratch, exist_ok=True)
         try:
             gmod, classes, _ = load_generated(scratch, c["gen"]["seed"], c["gen"]["n"])
-            cls = [k for k in classes if "%s.%s" % (k.__module__, k.__qualname__).split(".")[-1] == c["class"].split(".")[-1]][0]
+            cls = [k for k in classes if k.__qualname__ == c["class"].split(".")[-1]][0]
             return _replay_one(cls, c, gmod.LOG)
         finally:
             import shutil
@@ -1073,7 +1084,10 @@ def _replay_one(cls, c, glog):
     print("accepted by _check_and_get_method:", sorted(acc))
     if set(acc) != set(methods):
         print("advertised != invocable:", sorted(set(acc) ^ set(methods)))
-        rc = 1
+        if c.get("demand_equal", True):
+            rc = 1
+        else:
+            print("  (generated class outside the side condition class_ok: equality is not demanded)")
     for nm in names:
         kind, det, ran = route_a(th, nm, watch)
         print("request %r -> %s %r; code of the object that ran: %r; statically marked: %s"
